@@ -79,6 +79,9 @@ func Main() {
 			}
 			break
 		}
+		if sc.World.Race {
+			fmt.Fprintf(os.Stderr, "@@EPISODE %d\n", sc.Seed)
+		}
 		runScenario(&sc, out)
 		out.Flush()
 	}
